@@ -548,13 +548,16 @@ class Function(Value):
     def CreateConstant(
         self, constantType: Type, value: Union[int, float, bool]
     ):
-        result = self.__constants.get(value, None)
+        # Constants are shared per type and value: 1 and 1.0 compare equal but
+        # are different constants
+        key = (str(constantType), value)
+        result = self.__constants.get(key, None)
         if result:
             return result
 
         cv = ConstantValue(constantType, value)
         self.RegisterValue(cv)
-        self.__constants[value] = cv
+        self.__constants[key] = cv
 
         return cv
 
